@@ -22,7 +22,8 @@ Definition parse_dig (data : list Z) : list Z := dig (parse_full data).
 (* writer: layout 0 = EngineData (indented, container), 1 = EngineData2 (compact) *)
 Definition ly_of (z : Z) : layout := if z =? 0 then Indented else Compact.
 Definition write_full (a : Z * kvs) : list Z := canon (write (ly_of (fst a)) (snd a)).
-Definition write_dig (a : Z * kvs) : list Z := dig (write_full a).
+(* digest of the written bytes, then the count the writer returns *)
+Definition write_dig (a : Z * kvs) : list Z := dig (write_full a) ++ [write_count (ly_of (fst a)) (snd a)].
 
 (* reader then writer on raw bytes (fixture blobs): parse, write in the given layout *)
 Definition rewrite_full (a : Z * list Z) : list Z :=
